@@ -307,27 +307,35 @@ class World:
                 kw["density"] = it["density"]
             return fem.SolidBodyNearlyIncompressible(self._umat(k, it["umat"]), f, bulk=it["bulk"], **kw)
         self.umats.append(None)
+        as_int = self.doc.get("seed", 0) % 4 == 1  # initial load values typed as Python ints where integral
+
+        def typed(v):
+            a = np.asarray(v, dtype=float)
+            if as_int and np.all(a == np.round(a)):
+                return a.astype(int).tolist() if a.ndim else int(a)
+            return a if a.ndim else float(a)
+
         if t == "SolidBodyPressure":
-            return fem.SolidBodyPressure(self._boundary_field(it["face"]), pressure=it.get("pressure", 0.0))
+            return fem.SolidBodyPressure(self._boundary_field(it["face"]), pressure=typed(it.get("pressure", 0.0)))
         if t == "SolidBodyCauchyStress":
             cs = it.get("stress")
             return fem.SolidBodyCauchyStress(
                 self._boundary_field(it["face"]), cauchy_stress=None if cs is None else np.asarray(cs, dtype=float)
             )
         if t == "SolidBodyForce":
-            return fem.SolidBodyForce(f, values=self._load_vector(it["values"]), scale=it.get("scale", 1.0))
+            return fem.SolidBodyForce(f, values=typed(self._load_vector(it["values"])), scale=it.get("scale", 1.0))
         if t == "SolidBodyGravity":
             import warnings
 
             with warnings.catch_warnings():
                 warnings.simplefilter("ignore")
-                return fem.SolidBodyGravity(f, gravity=self._load_vector(it["gravity"]), density=it.get("density", 1.0))
+                return fem.SolidBodyGravity(f, gravity=typed(self._load_vector(it["gravity"])), density=it.get("density", 1.0))
         if t == "PointLoad":
             kw = {"axisymmetric": True} if it.get("axisymmetric") else {}
             pts = self._points(it["points"])
             if it.get("order") == "reversed":
                 pts = pts[::-1].copy()  # a point list that is not sorted
-            return fem.PointLoad(f, pts, values=np.asarray(it["values"], dtype=float), **kw)
+            return fem.PointLoad(f, pts, values=typed(it["values"]), **kw)
         if t in ("MultiPointConstraint", "MultiPointContact"):
             pts = self._points(it["points"])
             cp = int(self._points(it["centerpoint"])[0])
@@ -469,13 +477,24 @@ class World:
         ramp_bc = {}
         if case == "none":
             return {}, ramp_bc
+        def symflags(v):
+            # the same flags as bool, tuple of bool, tuple of int or ndarray (all documented / accepted)
+            how = bc.get("sym_type")
+            if isinstance(v, bool) or how in (None, "bool"):
+                return tuple(v) if isinstance(v, list) else v
+            if how == "int":
+                return tuple(int(x) for x in v)
+            if how == "ndarray-bool":
+                return np.array(v, dtype=bool)
+            return np.array(v, dtype=int)
+
         if case == "uniaxial":
-            b, _ = fem.dof.uniaxial(self.field, clamped=bc.get("clamped", False), axis=bc.get("axis", 0), sym=bc.get("sym", True), move=0.0)
+            b, _ = fem.dof.uniaxial(self.field, clamped=bc.get("clamped", False), axis=bc.get("axis", 0), sym=symflags(bc.get("sym", True)), move=0.0)
             ramp_bc["move"] = b["move"]
             return b, ramp_bc
         if case == "biaxial":
             axes = tuple(bc.get("axes", (0, 1)))
-            b, _ = fem.dof.biaxial(self.field, clampes=tuple(bc.get("clampes", (False, False))), moves=(0.0, 0.0), sym=bc.get("sym", True), axes=axes)
+            b, _ = fem.dof.biaxial(self.field, clampes=tuple(bc.get("clampes", (False, False))), moves=(0.0, 0.0), sym=symflags(bc.get("sym", True)), axes=axes)
             ramp_bc["move"] = b[f"move-right-{axes[0]}"]
             ramp_bc["move2"] = b[f"move-right-{axes[1]}"]
             return b, ramp_bc
